@@ -12,6 +12,15 @@
         all   AllLevels()
         lv    ids (into LvFile) of the per-level observations, pr  id (into PrFile) of the
               ParseLevel table.  Interning is injective: equal ids <=> equal observations.
+        nest  the same questions asked from INSIDE the library's own writing: a sequence of
+              [ctx, ran, lv, pr] - ctx one of Registry!Contexts ("warn": inside the Write of the
+              default logger's destination while ParseLevel reports an unknown name, "warn-go":
+              another goroutine at that moment, "rec": inside the Write of an ordinary record,
+              "val": inside the String method of a value being formatted), ran = the library came
+              to that place, lv = ids (into LvFile) of per-level round-trip observations (members
+              l .. jdec only), pr = id of the ParseLevel table obtained there.
+        lvp   ids (into LvFile) of the round-trip part (l .. jdec) of the outside observations,
+              so that  nest[k].lv = lvp  <=>  the nested answers are exactly the outside ones
      LvFile     line k = observation of one level:
         l, str (String), pstr (ParseLevel(String)), txtok/txt/utxt (MarshalText, UnmarshalText
         of it), jsok/js/ujs (MarshalJSON, UnmarshalJSON of it), ejs (encoding/json Marshal ->
@@ -28,6 +37,9 @@
    line the decision must be one Registry.Decisions allows; the successor is Registry.Accept or
    the unchanged state; a refusal must leave the WHOLE observation identical to the parent's
    (RefusalNoOp); then every observation is compared with what the Registry operators determine.
+
+   The nested observations are judged by the SAME operators with the context handed to
+   Registry!LookupIn (which, for the property, ignores it): keys "Nested(<ctx>):<part>:...".
 
    Every failed comparison is a finding with a KEY.  The key names the part of the statement
    (NameRoundTrip, TextRoundTrip, JSONRoundTrip, AnswersToName, UsesGivenTags, ShortTagLen,
@@ -62,12 +74,16 @@ C_JSON  == <<[n |-> "JSONNoUnquote", d |-> {"JSONNoUnquote"}],
 C_Tag   == <<[n |-> "TagBytes", d |-> {"TagBytes"}]>>
 C_Err   == <<[n |-> "ErrDevNoArg", d |-> {"ErrDevNoArg"}]>>
 C_None  == <<>>
+\* nested questions: additionally "every lookup fails while an unknown name is being reported"
+C_Busy(ctx) == IF ctx \in Reporting THEN <<[n |-> "BusyWhileReporting", d |-> {"BusyWhileReporting"}]>> ELSE <<>>
+Pfx(ctx) == IF ctx = "outside" THEN "" ELSE "Nested(" \o ctx \o "):"
 
 \* the first candidate whose prediction P holds names the finding
 KeyOf(chk, P(_), cands) ==
     IF Len(cands) >= 1 /\ P(cands[1].d) THEN chk \o ":" \o cands[1].n
     ELSE IF Len(cands) >= 2 /\ P(cands[2].d) THEN chk \o ":" \o cands[2].n
     ELSE IF Len(cands) >= 3 /\ P(cands[3].d) THEN chk \o ":" \o cands[3].n
+    ELSE IF Len(cands) >= 4 /\ P(cands[4].d) THEN chk \o ":" \o cands[4].n
     ELSE chk \o ":unexplained"
 
 \* a finding; the detail text is only built for the first occurrence of a key
@@ -75,36 +91,41 @@ Finding(key, detail) == {[key |-> key, detail |-> IF key \in DOMAIN bad THEN "" 
 
 -----------------------------------------------------------------------------
 (* one level's observation o against model state s *)
-NameF(s, o) ==
+NameFC(ctx, s, o) ==
     IF o.pstr = o.l THEN {}
-    ELSE Finding(KeyOf("NameRoundTrip", LAMBDA dev : o.pstr \in ParseSet(dev, s, o.str), C_Parse),
-              ToJson([level |-> o.l, printed |-> o.str, parsed_to |-> o.pstr]))
+    ELSE Finding(KeyOf(Pfx(ctx) \o "NameRoundTrip", LAMBDA dev : o.pstr \in LookupIn(dev, ctx, s, o.str), C_Busy(ctx) \o C_Parse),
+              ToJson([level |-> o.l, printed |-> o.str, parsed_to |-> o.pstr, asked_from |-> ctx]))
+NameF(s, o) == NameFC("outside", s, o)
 
 \* the forms themselves, judged by the specification's parser (independent of ParseLevel)
-FormF(s, o) ==
+FormFC(ctx, s, o) ==
     (IF o.l \in ParseSet({}, s, o.str) THEN {}
-     ELSE Finding("NameForm:unexplained", ToJson([level |-> o.l, printed |-> o.str, denotes |-> ParseSet({}, s, o.str)])))
+     ELSE Finding(Pfx(ctx) \o "NameForm:unexplained", ToJson([level |-> o.l, printed |-> o.str, denotes |-> ParseSet({}, s, o.str)])))
     \cup
     (IF o.txtok /\ o.l \in ParseSet({}, s, o.txt) THEN {}
-     ELSE Finding("TextForm:unexplained", ToJson([level |-> o.l, marshalled_ok |-> o.txtok, text |-> o.txt])))
+     ELSE Finding(Pfx(ctx) \o "TextForm:unexplained", ToJson([level |-> o.l, marshalled_ok |-> o.txtok, text |-> o.txt])))
     \cup
     (IF o.jsok /\ o.l \in ParseSet({}, s, o.jdec) THEN {}
-     ELSE Finding("JSONForm:unexplained", ToJson([level |-> o.l, marshalled_ok |-> o.jsok, json |-> o.js, decoded |-> o.jdec])))
+     ELSE Finding(Pfx(ctx) \o "JSONForm:unexplained", ToJson([level |-> o.l, marshalled_ok |-> o.jsok, json |-> o.js, decoded |-> o.jdec])))
+FormF(s, o) == FormFC("outside", s, o)
 
-TextF(s, o) ==
+TextFC(ctx, s, o) ==
     IF o.txtok /\ o.utxt = o.l THEN {}
-    ELSE Finding(KeyOf("TextRoundTrip", LAMBDA dev : o.txtok /\ o.utxt \in ParseSet(dev, s, o.txt), C_Parse),
-              ToJson([level |-> o.l, marshalled_ok |-> o.txtok, text |-> o.txt, unmarshalled_to |-> o.utxt]))
+    ELSE Finding(KeyOf(Pfx(ctx) \o "TextRoundTrip", LAMBDA dev : o.txtok /\ o.utxt \in UnmarshalTextIn(dev, ctx, s, o.txt),
+                    C_Busy(ctx) \o C_Parse),
+              ToJson([level |-> o.l, marshalled_ok |-> o.txtok, text |-> o.txt, unmarshalled_to |-> o.utxt, asked_from |-> ctx]))
+TextF(s, o) == TextFC("outside", s, o)
 
-JsonF(s, o) ==
+JsonFC(ctx, s, o) ==
     IF o.jsok /\ o.ujs = o.l /\ o.ejs = o.l THEN {}
-    ELSE Finding(KeyOf("JSONRoundTrip",
+    ELSE Finding(KeyOf(Pfx(ctx) \o "JSONRoundTrip",
                     LAMBDA dev : /\ o.jsok
                                  /\ LET src == IF "JSONNoUnquote" \in dev THEN o.js ELSE o.jdec
-                                    IN o.ujs \in ParseSet(dev, s, src) /\ o.ejs \in ParseSet(dev, s, src),
-                    C_JSON),
+                                    IN o.ujs \in LookupIn(dev, ctx, s, src) /\ o.ejs \in LookupIn(dev, ctx, s, src),
+                    C_Busy(ctx) \o C_JSON),
               ToJson([level |-> o.l, marshalled_ok |-> o.jsok, json |-> o.js, UnmarshalJSON_to |-> o.ujs,
-                      encoding_json_to |-> o.ejs]))
+                      encoding_json_to |-> o.ejs, asked_from |-> ctx]))
+JsonF(s, o) == JsonFC("outside", s, o)
 
 TagF(s, o) ==
     UNION {IF HasCustomTag(s, o.l, n)
@@ -141,13 +162,27 @@ LvFails(s, o) ==
 
 \* the ParseLevel table: a registered name or alias resolves to its level; any other string
 \* gives an error or a level it matches case-insensitively
-ParseF(s, tab) ==
+ParseFC(ctx, s, tab) ==
     UNION {LET p == tab[k] IN
-           IF p.r \in ParseSet({}, s, p.s) THEN {}
-           ELSE Finding(KeyOf(IF p.s \in DOMAIN s.keys THEN "AnswersToName" ELSE "ParseUnknown",
-                           LAMBDA dev : p.r \in ParseSet(dev, s, p.s), C_Parse),
-                     ToJson([string |-> p.s, parsed_to |-> p.r, allowed |-> ParseSet({}, s, p.s)]))
+           IF p.r \in LookupIn({}, ctx, s, p.s) THEN {}
+           ELSE Finding(KeyOf(Pfx(ctx) \o (IF p.s \in DOMAIN s.keys THEN "AnswersToName" ELSE "ParseUnknown"),
+                           LAMBDA dev : p.r \in LookupIn(dev, ctx, s, p.s), C_Busy(ctx) \o C_Parse),
+                     ToJson([string |-> p.s, parsed_to |-> p.r, allowed |-> LookupIn({}, ctx, s, p.s), asked_from |-> ctx]))
            : k \in DOMAIN tab}
+ParseF(s, tab) == ParseFC("outside", s, tab)
+
+\* the nested observations of a line: round trips of every level the model knows and the
+\* ParseLevel table, as answered from inside the library's own writing
+NestLvF(ctx, s, o) ==
+    IF o.l \notin Vals(s) THEN {}
+    ELSE NameFC(ctx, s, o) \cup FormFC(ctx, s, o) \cup TextFC(ctx, s, o) \cup JsonFC(ctx, s, o)
+NestF(s, e) ==
+    UNION {LET n == e.nest[k] IN
+           IF ~n.ran THEN {}
+           ELSE IF n.lv = e.lvp /\ n.pr = e.pr THEN {}      \* the very answers given outside: judged there
+           ELSE IF n.ctx \notin Contexts THEN Finding("Nested:unknown-context", n.ctx)
+           ELSE UNION {NestLvF(n.ctx, s, LvDefs[id]) : id \in Range(n.lv)} \cup ParseFC(n.ctx, s, PrDefs[n.pr].tab)
+           : k \in DOMAIN e.nest}
 
 AllF(s, all) ==
     IF Range(all) = Vals(s) /\ Len(all) = Cardinality(Vals(s)) THEN {}
@@ -155,10 +190,11 @@ AllF(s, all) ==
 
 ObsFails(s, e) ==
     UNION {LvFails(s, LvDefs[id]) : id \in Range(e.lv)} \cup ParseF(s, PrDefs[e.pr].tab) \cup AllF(s, e.all)
+    \cup NestF(s, e)
 
 -----------------------------------------------------------------------------
 (* the monitor *)
-Frame(s, e, failed) == [st |-> s, lv |-> e.lv, pr |-> e.pr, all |-> e.all, failed |-> failed]
+Frame(s, e, failed) == [st |-> s, lv |-> e.lv, pr |-> e.pr, all |-> e.all, nest |-> e.nest, failed |-> failed]
 
 OptOf(e) == [tags |-> e.tags, treat |-> e.treat, err |-> e.err, clr |-> e.clr]
 
@@ -175,13 +211,14 @@ Eval(par, e) ==
                                  ToJson([value |-> e.v, title |-> e.t, registered |-> par.st.all, returned |-> e.ret])),
                   stat |-> "rejected"]
             ELSE LET s2 == IF out = "accepted" THEN Accept(par.st, e.v, e.t, OptOf(e)) ELSE par.st
-                     same == e.lv = par.lv /\ e.pr = par.pr /\ e.all = par.all
+                     same == e.lv = par.lv /\ e.pr = par.pr /\ e.all = par.all /\ e.nest = par.nest
                      noop == IF out = "accepted" \/ same THEN {}
                              ELSE Finding("RefusalNoOp:" \o why,
                                        ToJson([value |-> e.v, title |-> e.t,
                                                levels_changed |-> {LvDefs[e.lv[k]].l : k \in {k2 \in DOMAIN e.lv :
                                                                      k2 \notin DOMAIN par.lv \/ e.lv[k2] # par.lv[k2]}},
                                                parse_table_changed |-> e.pr # par.pr,
+                                               nested_answers_changed |-> e.nest # par.nest,
                                                all_before |-> par.all, all_after |-> e.all]))
                  IN [frame |-> Frame(s2, e, FALSE), fails |-> noop \cup ObsFails(s2, e),
                      stat |-> why \o ":" \o out]
